@@ -353,6 +353,64 @@ if __name__ == "__main__":
 # minimal witnesses by greedy, deterministic shrinking with re-execution
 
 
+class Shrinker:
+    """final(n) = n if no one-step simplification of n fails the clause, else final(first failing
+    simplification): a pure function of the case, so it may be evaluated anywhere (worker or parent)."""
+
+    def __init__(self, simplify, fails):
+        self.simplify = simplify
+        self.fails = fails
+        self.cache = {}
+        self.reached = {}
+
+    def cfails(self, clause, w):
+        k = (clause, canon_json(w))
+        if k not in self.cache:
+            if len(self.cache) > 400000:
+                self.cache.clear()
+            self.cache[k] = self.fails(clause, w)
+        return self.cache[k]
+
+    def shrink(self, clause, w, exp, got):
+        k0 = (clause, canon_json(w))
+        if k0 in self.reached:
+            wj, res = self.reached[k0]
+            return json.loads(wj), res
+        path = [k0]
+        cur, res = w, (exp, got)
+        changed = True
+        while changed:
+            changed = False
+            for cand in self.simplify(cur):
+                kc = (clause, canon_json(cand))
+                if kc in self.reached:
+                    cur, res = json.loads(self.reached[kc][0]), self.reached[kc][1]
+                    path.append(kc)
+                    break
+                r = self.cfails(clause, cand)
+                if r is not None:
+                    cur, res, changed = cand, r, True
+                    path.append(kc)
+                    break
+        final = (canon_json(cur), res)
+        if len(self.reached) > 400000:
+            self.reached.clear()
+        for kk in path:
+            self.reached[kk] = final
+        return cur, res
+
+
+def report_minimal(chk, minimal, counts):
+    """minimal: iterable of (clause, witness, expected, got) already shrunk; counts: clause -> failing cases."""
+    for c, n in counts.items():
+        chk.clause(c, failed=n)
+    seen = 0
+    for clause, w, exp, got in sorted(minimal, key=lambda f: (f[0], canon_json(f[1]))):
+        seen += 1
+        chk.witness(clause, w, exp, got)
+    chk.cov["dominated_failures"] += max(0, sum(counts.values()) - len(chk.witnesses))
+
+
 def reduce_failures(chk, failures, simplify, fails, cap=8000):
     """failures: iterable of (clause, witness, expected, got).
     simplify(witness) -> ordered list of strictly simpler witnesses (well-founded order).
